@@ -466,6 +466,13 @@ fn check_group_status(nb_total: u8, items: &[(u8, u32)], nb_at: u8, kf: &KnownFi
     let mut want_mask = 0u8;
     let mut want_items = vec![];
     for ((g, a), ok) in items.iter().zip(acc.iter()) {
+        // the answer holds at most four items: a further push is refused and changes nothing
+        if want_items.len() >= 4 {
+            if *ok {
+                return Err(Failure::new("roundtrip-field", case, format!("push({g}) accepted although the answer already holds four items")).with_fp("roundtrip-field/McGroupStatusAns/fifth-item"));
+            }
+            continue;
+        }
         if *g <= 3 && !*ok {
             return Err(Failure::new("admissible-refused", case, format!("push({g}) refused")).with_fp("admissible-refused/McGroupStatusAns.push"));
         }
@@ -1055,7 +1062,7 @@ fn boundary_values(bits: u32, rng: &mut SplitMix, n_random: usize) -> Vec<u64> {
 }
 
 pub fn run(ctx: &mut Ctx) {
-    ctx.rule = "per command of the six sets with a creator: every setter once on a fresh creator, in every/random order; field values exhaustive for setter arguments <= 16 bits (one field swept, the others at random baselines), boundary + random for wider ones, out-of-range arguments included; variable-length builders (EchoIncPayloadAns 0..=241 bytes, McGroupStatusAns 0..=4 items incl. out-of-range ids with the count setter at every position among the pushes, McGroupSetupReq with key wrap checked with the independent AES, RxAppCntAns all 65536, DutVersionsAns); sequences of 1..=10 commands through mac_commands_len/build_mac_commands with exact/short/long buffers; text forms: all 65536 DevNonce, boundary + random values of the other 17 identifier/key types; field value types of lorawan::types (ChannelMask<2> all 65536 masks and ChannelMask<9> random/sparse/dense masks: new() on slices of N-0..N+3 octets, from / new_from_raw / as_ref / get_index, is_enabled for every index up to 8N+16, statuses, set_channel and set_bank edits; all 256 DataRateRange / DLSettings / Redundancy octets; DR x offset_sub; types::Frequency on 0..5 octets). Non-trivial: any non-default field value or out-of-range argument; distinct by hash of the case".into();
+    ctx.rule = "per command of the six sets with a creator: every setter once on a fresh creator, in every/random order; field values exhaustive for setter arguments <= 16 bits (one field swept, the others at random baselines), boundary + random for wider ones, out-of-range arguments included; variable-length builders (EchoIncPayloadAns 0..=241 bytes, McGroupStatusAns 0..=4 items incl. out-of-range ids and pushes beyond the fourth item, with the count setter at every position among the pushes, McGroupSetupReq with key wrap checked with the independent AES, RxAppCntAns all 65536, DutVersionsAns); sequences of 1..=10 commands through mac_commands_len/build_mac_commands with exact/short/long buffers; text forms: all 65536 DevNonce, boundary + random values of the other 17 identifier/key types; field value types of lorawan::types (ChannelMask<2> all 65536 masks and ChannelMask<9> random/sparse/dense masks: new() on slices of N-0..N+3 octets, from / new_from_raw / as_ref / get_index, is_enabled for every index up to 8N+16, statuses, set_channel and set_bank edits; all 256 DataRateRange / DLSettings / Redundancy octets; DR x offset_sub; types::Frequency on 0..5 octets). Non-trivial: any non-default field value or out-of-range argument; distinct by hash of the case".into();
     ctx.assumptions = vec![
         "expected accessor values come from the LoRaWAN 1.0.x / TS005 / TS009 field layouts (little-endian multi-octet fields, MaxEIRP table), not from the crate".into(),
         "when a setter is called again on the same creator the value set last is the one in force; a call that is refused (Err) leaves the field as it was".into(),
@@ -1223,11 +1230,17 @@ pub fn run(ctx: &mut Ctx) {
                         let j = rng.below(k as u64) as usize;
                         ids[j] = 4 + rng.below(252) as u8; // out-of-range id
                     }
+                    // a full answer and one or two pushes more (refused, nothing disturbed)
+                    if rep == 4 && k == 4 {
+                        for _ in 0..1 + rng.below(2) {
+                            ids.push(rng.below(4) as u8);
+                        }
+                    }
                     let items: Vec<(u8, u32)> = ids.iter().map(|g| (*g, rng.next_u32())).collect();
                     st.eval();
-                    st.class(if items.iter().any(|(g, _)| *g > 3) { "group-status-out-of-range" } else { "group-status" });
+                    st.class(if items.iter().any(|(g, _)| *g > 3) { "group-status-out-of-range" } else if items.len() > 4 { "group-status-more-than-four" } else { "group-status" });
                     // the count setter at every position among the pushes, and twice
-                    for nb_at in (0..=k as u8).chain([255u8]) {
+                    for nb_at in (0..=items.len() as u8).chain([255u8]) {
                         st.eval();
                         match check_group_status(nb, &items, nb_at, &kf, &mut ex) {
                             Ok(()) => st.nt_hash(hash_value(&json!([nb, items, nb_at]))),
